@@ -228,7 +228,7 @@ Proof. vm_compute. reflexivity. Qed.
    dispatch of FlattenProperties are no longer tied to the source by the correspondence check alone:
    Gen/FlattenT.v is regenerated from flatten.go on every run (translator/flattent.go: every statement of every
    `func F(x *K) *K`, and the Contains/On<K> chain of FlattenProperties).  Model/FlattenTab.v expands a table
-   into step lists (delegations resolved through the table, On<K> admitted only where the struct converts),
+   into step lists (delegations resolved through the table, On<K> taken only where the struct converts),
    runs them with the model's own [run_steps] ([flatten_fields_t]) and states the decidable condition
    [flatten_table_ok].  A source change that drops a property from a flattener, uses another helper, reorders the
    steps or edits the dispatch breaks C16_flatten_table. *)
